@@ -450,6 +450,9 @@ def SliceIn.arg (t : SliceIn α) (i : Nat) : Except Err (DimDesc α × α × α 
         let du := d.unitOrNone
         let halfGiven := (t.starts[i]?).isSome != (t.ends[i]?).isSome && (t.units[i]?).isSome
         let scalableKind := match d with | .sampled .. => true | .range .. => true | _ => false
+        -- neither bound given: both are filled in from the dimension and are in ITS unit, whatever unit was given (fix of D56)
+        let noneGiven := (t.starts[i]?).isNone && (t.ends[i]?).isNone && (t.units[i]?).isSome
+        if noneGiven && scalableKind then .ok (d, s, e, du, rm) else
         if halfGiven && scalableKind && unit != "none" && du != "none" && unit != du then
           match siScaling (α := α) unit du with
           | some f =>
